@@ -574,6 +574,110 @@ def T_subsume(ctx, lib):
                            expected="nothing removed when the new nogood is not stored", found=[flow.last(e["resolved"]) for e in rets])
 
 
+def merge_loop_form(ctx, lib, rule, b):
+    """the merge written as a loop over the buckets: `for (..) in self.store.iter().enumerate() { let Some(n) = try_from_pair_iter(..) else { continue }; if <conflict(n, acc)>
+    { return None } acc.disjunction(&n) }`.  One round is run symbolically: the loop's `next` yields bucket 0, try_from_pair_iter yields the conclusion N, the accumulated
+    assignment starts as the interpretation A; the round must end in `return None` only under a genuine conflict and otherwise at the back edge with acc = A | N."""
+    loops = b.natural_loops()
+    calls, d = flow.all_call_exprs(b)
+    tfp = [bb for bb, t, ci, e in calls if e[0] == "call" and flow.last(e[2]) == "try_from_pair_iter"]
+    if len(tfp) != 1:
+        return False
+    cands = [(len(bl), h) for h, bl in loops.items() if tfp[0] in bl]
+    if not cands:
+        return False
+    head = min(cands)[1]
+    blocks = loops[head]
+    nexts = [t for bb, t, ci, e in calls if bb in blocks and e[0] == "call" and flow.last(e[2]) == "next" and "d:ForLoop" in (t.get("exp") or [])]
+    if len(nexts) != 1:
+        return False
+    nt = nexts[0]
+    eng = ctx.engine([lib], no_inline={"adf_bdd::nogoods::NoGood::conclude"})
+    st = symx.State()
+    A = ng_val(SA, SV)
+    N = ng_val(OA, OV)
+
+    def hook(eng_, st_, frame, path, target, args, t):
+        if t is nt or (t.get("loc") == nt.get("loc") and flow.last(target) == "next" and "d:ForLoop" in (t.get("exp") or [])):
+            return [(st_, mk_adt("std::option::Option", "Some", [("0", ("tuple", (vint(0), shared.ref_to(st_, ("sym", "bucket")))))]))]
+        if flow.last(target) == "try_from_pair_iter":
+            return [(st_, mk_adt("std::option::Option", "Some", [("0", N)]))]
+        return NotImplemented
+    eng.call_hook = hook
+    try:
+        paths = eng.summarise(b, [shared.ref_to(st, ("sym", "store")), shared.ref_to(st, A)], st)
+    finally:
+        eng.call_hook = None
+    rl = None
+    for l, nme in b.local_names().items():
+        if nme == "result":
+            rl = l
+    # the round: paths that end at the loop's back edge, or return from inside the loop (not after the final scan behind the loop)
+    round_paths = [p for p in paths if (p.end == "backedge" and p.end_bb == head)
+                   or (p.end == "return" and not any(is_call(deep_strip(ce), "Iterator::any") for ce, _ in p.cond))]
+    if rl is None or not round_paths:
+        return False
+    # the accumulated assignment at the head of the loop is the loop-carried `result` (initialised with a copy of the interpretation): its two bitmaps are A
+    lvs = set()
+    for p in round_paths:
+        for ce, _ in p.cond:
+            for n_ in symx.find_all(ce, lambda n_: n_[0] == "loopvar" and n_[1] == head and n_[2] == rl):
+                lvs.add(n_)
+        v_ = p.locals.get(rl)
+        if v_ is not None:
+            for n_ in symx.find_all(v_, lambda n_: n_[0] == "loopvar" and n_[1] == head and n_[2] == rl):
+                lvs.add(n_)
+    bad = None
+    cnt = 0
+    try:
+        for n, sa, sv, oa, ov in all_models():
+            e = {SA: sa, SV: sv, OA: oa, OV: ov}
+            for lv in lvs:
+                e[("field", lv, "active")] = sa
+                e[("field", lv, "value")] = sv
+            hit = []
+            for p in round_paths:
+                okp = True
+                for ce, cv in p.cond:
+                    try:
+                        got = ev(ce, e, n)
+                    except NotBits:
+                        continue        # conditions that do not depend on the two assignments (bucket index against the length, log level)
+                    g = int(got) if isinstance(got, bool) else got
+                    if cv[0] == "int" and g != cv[1]:
+                        okp = False
+                        break
+                if okp:
+                    hit.append(p)
+            conflict = any((sa >> i) & 1 and (oa >> i) & 1 and ((sv >> i) & 1) != ((ov >> i) & 1) for i in range(n))
+            cnt += 1
+            for p in hit:
+                if p.end == "return":
+                    r = strip(p.ret)
+                    is_none = r[0] == "adt" and r[2] == "None"
+                    if is_none and not conflict:
+                        bad = "positions=%d acc=(%s,%s) conclusion=(%s,%s): reports a conflict although no jointly active position differs" % (n, bin(sa), bin(sv), bin(oa), bin(ov))
+                else:
+                    after = strip(p.locals.get(rl))
+                    if after[0] == "ref":
+                        after = strip(symx.deref_val(eng, p.state, after))
+                    ga, gv = ev(symx.adt_get(after, "active"), e, n), ev(symx.adt_get(after, "value"), e, n)
+                    if conflict:
+                        bad = "conflicting conclusion merged: acc=(%s,%s) conclusion=(%s,%s)" % (bin(sa), bin(sv), bin(oa), bin(ov))
+                    elif ga != (sa | oa) or gv != (sv | ov):
+                        bad = "merge of acc=(%s,%s) with (%s,%s) gives (%s,%s)" % (bin(sa), bin(sv), bin(oa), bin(ov), bin(ga), bin(gv))
+            if not hit:
+                bad = "no path of the round applies to acc=(%s,%s) conclusion=(%s,%s)" % (bin(sa), bin(sv), bin(oa), bin(ov))
+            if bad:
+                break
+    except NotBits as e_:
+        ctx.cannot(rule, "merge-fold.table", "summary over bitmap operations (loop form)", b.where(), str(e_))
+        return True
+    ctx.ob(rule, "merge-conflict-only-if-values-differ", bad is None, where=b.where(), expected="loop form: return None => exists pos N_a & A_a & (N_v xor A_v); else acc |= N",
+           found=bad or "agrees on %d models" % cnt)
+    return True
+
+
 def T_conflict(ctx, lib):
     rule = "C18.T-conflict"
     ctx.rule(rule, "conclusions: the merge fold answers None (conflict) for bucket conclusion N against the accumulated A only if "
@@ -586,6 +690,8 @@ def T_conflict(ctx, lib):
     roles, defs = flow.closure_roles(b)
     tf = [r for r in roles.values() if r.adaptor in ("try_fold", "try_for_each")]
     if len(tf) != 1:
+        if merge_loop_form(ctx, lib, rule, b):
+            return b
         ctx.cannot(rule, "merge-fold", "one try_fold merging the bucket conclusions", b.where(), [r.adaptor for r in roles.values()])
         return b
     cb = lib.body(tf[0].closure_def)
